@@ -99,6 +99,19 @@ func newFactsFam(thorough bool) *factsFam {
 		op(false, "args.x > args.y"),
 		op(false, "args.y >= args.x"),
 		st(false, "this.f = args.y - args.x"),
+		// strict guards with constants that are not multiples of the later divisor, and the
+		// compound assignments that scale a variable down (a strict order is not preserved by
+		// floor division / right shift): seeded change C02-4
+		op(false, "this.f < 5"),
+		op(false, "this.f > 2"),
+		op(false, "j < 5"),
+		op(false, "j > args.x"),
+		st(false, "this.f >>= 1"),
+		st(false, "this.f /= 2"),
+		st(false, "this.f -= 1"),
+		st(false, "j >>= 1"),
+		st(false, "j /= 2"),
+		st(false, "j &= 3"),
 		st(false, "if i < 4 {", "i += 1", "} else {", "i = 3", "}"),
 		st(false, "if i == 3 {", "j = i", "} else {", "j = 3", "}"),
 		st(false, "if j < 4 {", "i = j", "}"),
